@@ -81,8 +81,12 @@ def same_spec():
         'problem': simgen.problem_spec(max_src=2, max_freq=2),
         'vseed': gen.SEED,
         'file': st.sampled_from([False, False, True]),
-        'vkind': st.sampled_from(['dense', 'dense', 'cell', 'cell_any',
-                                  'single']),
+        # 'cell_any' / 'single' (one boundary cell, one entry) were withdrawn:
+        # J v of a single remote cell is at the iteration-noise level of
+        # emg3d's own J solve (1e-17 against fields of 1e-10), and both
+        # sides of the identity are then noise (false alarms of the first
+        # thorough run, DESIGN.md section 9)
+        'vkind': st.sampled_from(['dense', 'dense', 'cell']),
         'history': st.sampled_from(['fresh'] + HISTORIES),
         'wkind': st.sampled_from(['dense', 'normalised', 'single']),
         'vform': st.sampled_from(['3d', '4d', 'F', 'view']),
